@@ -24,28 +24,33 @@ def body(c):
         raise vlib.ToolError("design-level failure in JsHtml.tla: " + str(m.invariant_violated))
     if m.distinct < 1000:
         raise vlib.ToolError("mode M explored only %d states" % m.distinct)
-    c.add_tlc("M JsHtml (MaxLen=3, SeqExtra=2: writers, deviation triggers, tokenizer lemma)", m)
+    c.add_tlc("M JsHtml (MaxLen=3, SeqExtra=1: writers, deviation triggers, tokenizer lemma)", m)
     # ---- mode G
-    n, extra = (3, 1) if c.quick else (4, 2)
+    # (MaxLen, SeqExtra, slots) per generator run; quick goes one symbol deeper on one slot of each template shape
+    runs = ([(3, 1, ["endpoint", "title", "hvalue"]), (2, 1, ["subscription", "hname", "pname", "pvalue"])] if c.quick
+            else [(4, 2, SLOTS)])
     if c.replay:
         with open(c.replay) as f:
             case = json.load(f)["case"]
         rows = [{"slot": case["slot"], "val": case["val"]}]
     else:
-        cfg = c.path("Gen_JsHtml.cfg")
-        with open(cfg, "w") as f:
-            f.write("CONSTANT MaxLen = %d\nCONSTANT SeqExtra = %d\nCONSTANT Slots = {%s}\nINIT Init\nNEXT Next\nINVARIANT Emit\n"
-                    % (n, extra, ", ".join('"%s"' % s for s in SLOTS)))
-        g = vlib.run_tlc("lex/Gen_JsHtml.tla", cfg, workers=W, timeout=1800, keep_lines=50, xmx="6g")
-        c.add_tlc("G values (MaxLen=%d, SeqExtra=%d, 7 slots)" % (n, extra), g)
-        rows = [json.loads(x) for x in sorted(set(t[1] for t in g.tagged("REPLAY")))]
-        if len(rows) != g.distinct:
-            raise vlib.ToolError("generator printed %d cases for %d states" % (len(rows), g.distinct))
+        rows = []
+        for k, (n, extra, slots) in enumerate(runs):
+            cfg = c.path("Gen_JsHtml_%d.cfg" % k)
+            with open(cfg, "w") as f:
+                f.write("CONSTANT MaxLen = %d\nCONSTANT SeqExtra = %d\nCONSTANT Slots = {%s}\nINIT Init\nNEXT Next\nINVARIANT Emit\n"
+                        % (n, extra, ", ".join('"%s"' % s for s in slots)))
+            g = vlib.run_tlc("lex/Gen_JsHtml.tla", cfg, workers=W, timeout=1800, keep_lines=50, xmx="6g")
+            c.add_tlc("G values (MaxLen=%d, SeqExtra=%d, slots %s)" % (n, extra, ",".join(slots)), g)
+            part = [json.loads(x) for x in sorted(set(t[1] for t in g.tagged("REPLAY")))]
+            if len(part) != g.distinct:
+                raise vlib.ToolError("generator printed %d cases for %d states" % (len(part), g.distinct))
+            rows += part
         rows.sort(key=lambda r: (SLOTS.index(r["slot"]), len(r["val"]), r["val"]))
     vlib.write_ndjson(c.path("cases.ndjson"), rows)
     # ---- harness
     (binary,) = vlib.build_harness(["c34"])
-    nrand = 0 if c.replay else (2100 if c.quick else 35000)
+    nrand = 0 if c.replay else (1400 if c.quick else 35000)
     p = vlib.run_harness(binary, [c.path("cases.ndjson"), c.path("trace.ndjson"), c.seed, nrand], timeout=1800)
     if p.returncode != 0:
         raise vlib.ToolError("c34 harness failed: " + p.stderr[-2000:])
@@ -83,13 +88,14 @@ def body(c):
     c.notes.append("cases by slot: " + json.dumps({k: stats[k] for k in sorted(stats)}))
     c.cov["traces_validated_against_impl"] = len(cases)
     c.cov["exhaustive"] = not c.replay
-    c.cov["rule"] = ("G: TLC enumerates every string of <= %d symbols over {' \" & < > / \\ LF U+2028 s x e-acute} and every hostile "
+    bounds = "; ".join("<= %d symbols / <= %d around a sequence for %s" % (n, e, ",".join(sl)) for n, e, sl in runs)
+    c.cov["rule"] = ("G: TLC enumerates every string of symbols over {' \" & < > / \\ LF U+2028 s x e-acute} and every hostile "
                      "sequence (</script>, </SCriPT , <!--, <!--<script>, -->, ]]>, </title>, &lt;, &amp;, &#39;, &#x27;, \\u0027, "
-                     "\\x27) with <= %d further symbols before/after, for each of the 7 configured slots (endpoint, subscription "
+                     "\\x27) with further symbols before/after (%s), for each of the 7 configured slots (endpoint, subscription "
                      "endpoint, title, header name/value, connection-parameter name/value; the other slots hold harmless values); "
                      "the harness adds %d seeded random values of 5-12 code points over a wider alphabet (CR, U+2029, an astral "
                      "character, escape-sequence letters); non-trivial = the value contains a character other than s, x, "
-                     "e-acute; distinct by (slot, value)" % (n, extra, nrand))
+                     "e-acute; distinct by (slot, value)" % (bounds, nrand))
     shown = set()
     for cs in cases:
         vd = verdicts[cs["id"]]
